@@ -151,6 +151,7 @@ fn exec_one(sc: &Scenario, ctx: &mut Ctx) -> Vec<Violation> {
             "a compressed chunk reaches its (lowered) declared uncompressed size with {} compressed bytes unused, i.e. its payload produces more than declared",
             n
         )),
+        Err(L2Reject::MarkerBeforeSize) => Some("a compressed chunk ends (end marker) before producing its declared uncompressed size".into()),
         Err(L2Reject::UncompressedTruncated) => Some("an uncompressed chunk is shorter than declared".into()),
         Err(L2Reject::MissingEnd) | Err(L2Reject::TruncatedHeader) => Some("the input ends before the end control byte".into()),
         _ => None,
@@ -191,7 +192,7 @@ impl Property for C17 {
         "fault_enumeration"
     }
     fn rule(&self) -> &'static str {
-        "per seeded valid LZMA2 chunk sequence, at every chunk: control byte := each value 0x03-0x7F; property byte := each value >= 225 and each value with lc+lp > 4; declared compressed size lowered (-1,-2,-3, half, 5, 1); declared uncompressed size ±1, ±many; uncompressed chunk cut short at several offsets or declaring more than is left; input cut at every chunk boundary and before the end byte (thorough: every value; quick: 6 sampled values per field). One evaluation = one mutated stream through lzma2_decompress / raw::Lzma2Decoder / xz_decompress; a lenient reference decoder that knows exactly the listed rules decides must-reject; distinct by scenario hash; all non-trivial"
+        "per seeded valid LZMA2 chunk sequence, at every chunk: control byte := each value 0x03-0x7F; property byte := each value >= 225 and each value with lc+lp > 4; declared compressed size lowered (-1,-2,-3, half, 5, 1); declared uncompressed size ±1, ±many; uncompressed chunk cut short at several offsets or declaring more than is left; input cut at every chunk boundary and before the end byte (thorough: every value; quick: 6 sampled values per field); plus chunks that end in an end-of-stream marker short of their declared size. One evaluation = one mutated stream through lzma2_decompress / raw::Lzma2Decoder / xz_decompress; a lenient reference decoder that knows exactly the listed rules decides must-reject; distinct by scenario hash; all non-trivial"
     }
     fn runs(&self, tier: Tier) -> u64 {
         match tier {
@@ -268,6 +269,51 @@ impl Property for C17 {
                 _ => "fault.fired.input_ends_before_end_byte",
             };
             ctx.stats.hit(key);
+            let r = exec_one(&sc, ctx);
+            if !r.is_empty() {
+                return r;
+            }
+        }
+        // a compressed chunk that stops short of its declared size by way of an
+        // end-of-stream marker (exact compressed size, marker last)
+        for _ in 0..2 {
+            let mut w = Lzma2Writer::new();
+            let cfg = crate::gen::draw_cfg(t);
+            let mut ps = crate::gen::ProgStats::default();
+            let mut note = String::new();
+            if t.below(2) == 0 {
+                let n = t.range(1, 40) as usize;
+                let data = crate::gen::draw_bytes(t, n);
+                w.raw_chunk(true, &data);
+                note.push_str("U1 ");
+            }
+            let first = w.chunks.is_empty();
+            let reset: u8 = if first { 3 } else { 2 + t.below(2) as u8 };
+            let ts = w.enc.trace.len();
+            w.begin_lzma_chunk(reset, Some(crate::gen::draw_props(t, true)));
+            let target = t.range(0, 120);
+            crate::gen::gen_program(t, &cfg, &mut w.enc, target, 3000, &mut ps);
+            w.enc.encode_end_marker();
+            let k = [1usize, 2, 17, 300, 70_000][t.below(5) as usize];
+            if !w.end_lzma_chunk_extra(reset, ts, k) {
+                continue;
+            }
+            note.push_str("L+marker ");
+            if t.below(2) == 0 {
+                let n = t.range(1, 20) as usize;
+                let data = crate::gen::draw_bytes(t, n);
+                w.raw_chunk(false, &data);
+                note.push_str("U2 ");
+            }
+            w.end();
+            let mut sc = Scenario::new("c17");
+            sc.set_i("ep", [EP_LZMA2, EP_RAW_LZMA2][t.below(2) as usize]);
+            sc.set_b("input", std::mem::take(&mut w.bytes));
+            sc.note = format!(
+                "marker_in_chunk | compressed chunk ends with an end marker {} byte(s) short of its declared size | chunks: {}",
+                k, note
+            );
+            ctx.stats.hit("fault.fired.end_marker_before_declared_size");
             let r = exec_one(&sc, ctx);
             if !r.is_empty() {
                 return r;
